@@ -28,13 +28,15 @@ var (
 			"case, other headers incl. caching ones, body, write segmentation, implicit or explicit WriteHeader) through banner.Proxy in-process "+
 			"with a neutral recording ResponseWriter; differential against the wrapped handler's own response with a reference predicate from "+
 			"the property text (set-valued: altered => GET and Accept text/html and 200 and non-attachment and HTML type); non-trivial = the "+
-			"response is HTML; distinct = SHA-256 of the canonical case")
+			"response is HTML; distinct = SHA-256 of the canonical case"+
+			" Later additions: malformed attachment parameters; a 1xx interim response in front of the final one.")
 	recS = vh.NewRecorder("C14", "shim-script",
 		"responses (Content-Type variants, body with <head> at offsets {0, mid, 1013..1024 straddling the 1024-byte window, beyond it, absent, "+
 			"repeated, upper-case, with attributes}, generated read segmentation of the backend body) through websockets.ShimBody in-process, "+
 			"optionally followed by banner.Proxy; oracle: non-HTML => body and headers identical; HTML => body is the original or the original "+
 			"with one script block (start/end markers, shim path) spliced immediately after the first <head>, and it must be spliced when the "+
-			"first <head> lies wholly inside the first read of at most 1024 bytes; only Content-Length may change; non-trivial = HTML response")
+			"first <head> lies wholly inside the first read of at most 1024 bytes; only Content-Length may change; non-trivial = HTML response"+
+			" Later additions: filler of multi-byte and invalid UTF-8; bodiless responses (HEAD, 204, 302, 304).")
 )
 
 var recC = vh.NewRecorder("C14", "banner-concurrent",
